@@ -28,6 +28,7 @@ def _make_scratch(src_root):
 
 def _analyse(root, prop):
     import importlib
+    from .advisory import ADVISORY
     repo = Repo(root)
     ctx = Ctx(prop, 'quick', repo)
     mod = importlib.import_module('sa.props.' + prop.lower())
@@ -39,6 +40,8 @@ def _analyse(root, prop):
             continue
         if any(k['rule'] == o.rule and k['key'] == o.key for k in known):
             continue
+        if (o.rule, o.key) in ADVISORY:
+            continue            # reported, but not part of the claim
         bad.append((o.rule, o.key, o.site, o.detail))
     return bad
 
